@@ -1927,6 +1927,20 @@ pub fn array_to_sorted(
         })
         .collect();
 
+    // The comparator (or toString) runs script code that may allocate and may
+    // drop the source array's elements: keep the array, the comparator and the
+    // copied elements rooted until the result array owns them
+    let elements_guard = interp.heap.create_guard();
+    elements_guard.guard(arr.cheap_clone());
+    if let Some(JsValue::Object(obj)) = &comparator {
+        elements_guard.guard(obj.cheap_clone());
+    }
+    for element in &elements {
+        if let JsValue::Object(obj) = element {
+            elements_guard.guard(obj.cheap_clone());
+        }
+    }
+
     if let Some(ref cmp_fn) = comparator {
         if cmp_fn.is_callable() {
             let cmp_fn = cmp_fn.clone();
